@@ -494,6 +494,10 @@ func shouldIgnoreTriple(t *triple.Triple, cls *semantic.GraphClause) (bool, erro
 					return true, nil
 				}
 			}
+		} else {
+			// The clause asks for a predicate object with the given ID; nodes and
+			// literals cannot match it.
+			return true, nil
 		}
 	}
 
